@@ -3647,7 +3647,7 @@ static int bufr_load_datasubsets( FILE *fp, BUFR_Dataset *dts, int lineno, BUFR_
          {
          if (bufr_is_verbose())
 	    {
-            sprintf( msg, _("Loading: %s\n"), ligne );
+            snprintf( msg, sizeof(msg), _("Loading: %s\n"), ligne );
 	    bufr_print_debug( msg );
 	    }
 
